@@ -90,6 +90,9 @@ type caseFrame struct {
 	// History: frames decoded before Frame, whose packets are kept and must
 	// not change while Frame is decoded.
 	History []preOp `json:"history,omitempty"`
+	// Base: the intact frame Frame was derived from by raising one inner
+	// length field beyond the data (C05: the damage must not cost memory).
+	Base Hex `json:"base,omitempty"`
 }
 
 func mustJSON(v interface{}) json.RawMessage {
